@@ -147,7 +147,8 @@ async def check_case(ctx, case):
 
         known_table = {k: v for k, v in table.items() if v is not None}
         cer = E.make_cer({}, {}, {}, packages=known_table)
-        mode = rng.choice(["hardcoded", "cer"])
+        mode = rng.choice(["hardcoded", "cer", "one-table-provider"])
+        ctx.count("shipped_resolver_mode:" + mode)
         shipped = await H.with_shipped_evaluators(mode, cer, lambda: parse_expression_including_unresolved_subexpressions(s, resolve_packages=True, replace_time_conditions=True))
         ctx.evaluation()
         ctx.count("resolutions_with_shipped_resolvers")
@@ -163,6 +164,18 @@ async def check_case(ctx, case):
             exp, _w = await resolve(s2, {}, False, False)
             if not compare(ctx, f"{s!r} with table {table} ({mode} resolver)", shipped[1], s2, exp[1], is_ahb, wcase):
                 return
+    # a message of a format / version for which NO package table is registered: every package is unknown there
+    if occurrences and rng.random() < 0.3:
+        from vf import evalhelp as H
+
+        cer = E.make_cer({}, {}, {}, packages={k: v for k, v in table.items() if v is not None})
+        mode = rng.choice(["hardcoded-other-version", "hardcoded-other-format"])
+        foreign = await H.with_shipped_evaluators(mode, cer, lambda: parse_expression_including_unresolved_subexpressions(s, resolve_packages=True, replace_time_conditions=True))
+        ctx.evaluation()
+        ctx.count("resolutions_for_a_format_without_package_table")
+        if foreign[0] == "ok" or not isinstance(foreign[1], NotImplementedError):
+            ctx.violation("unknown-package", f"{s!r}: the message is of a format/version ({mode}) for which no package table is registered (the only table belongs to {E.FORMAT}/{E.VERSION}); expected NotImplementedError, got: {describe(foreign)[:300]}", case=dict(case, note=mode))
+            return
     if unknown:
         return
     # the flags on their own
